@@ -37,6 +37,7 @@ pub struct Profile {
     pub p_fn_exprs: f64,
     pub p_math_exprs: f64,
     pub p_where_col_cmp: f64,
+    pub p_where_fn: f64,
     pub p_inner_where: f64,
     pub p_join_of_subqueries: f64,
     pub p_on_or: f64,
@@ -77,6 +78,7 @@ impl Profile {
             p_fn_exprs: 0.1,
             p_math_exprs: 0.06,
             p_where_col_cmp: 0.05,
+            p_where_fn: 0.05,
             p_inner_where: 0.5,
             p_join_of_subqueries: 0.0,
             p_on_or: 0.0,
@@ -91,7 +93,7 @@ impl Profile {
         match prop {
             "C03" => Profile { p_on_or: 0.04, p_cross: 0.04, p_outer_kinds: 0.05, p_multi_dp: 0.06, p_shared_cte: 0.05, p_nested_group: 0.03, ..base },
             "C01" => Profile { p_nested_by_id: 0.04, p_on_or: 0.06, p_cross: 0.06, p_outer_kinds: 0.06, p_shared_cte: 0.03, p_nested_group: 0.05, ..base },
-            "C09" => Profile { p_where_col_cmp: 0.2, p_math_exprs: 0.2, p_count_of_unique: 0.6, p_fn_exprs: 0.25, p_modulo: 0.12, p_alias_shadow: 0.4, public_keys_only: true, benign_data: true, p_distinct: 0.12, p_row_privacy: 0.15, p_grouped: 0.65, ..base },
+            "C09" => Profile { p_where_fn: 0.2, p_where_col_cmp: 0.2, p_math_exprs: 0.2, p_count_of_unique: 0.6, p_fn_exprs: 0.25, p_modulo: 0.12, p_alias_shadow: 0.4, public_keys_only: true, benign_data: true, p_distinct: 0.12, p_row_privacy: 0.15, p_grouped: 0.65, ..base },
             "C04" => Profile { p_unsupported_agg: 0.08, p_key_via_agg: 0.25, p_nested_group: 0.08, p_nested: 0.0, need_private_key: true, p_grouped: 1.0, p_outer: 0.0, p_distinct: 0.05, ..base },
             "C16" => Profile { benign_data: true, full_catalogue: true, p_public_table: 1.0, p_synthetic: 0.3, ..base },
             "C02" => Profile { p_pu_without_root: 0.08, p_extra_select: 0.05, p_join_of_subqueries: 0.05, p_on_or: 0.04, p_unsupported_agg: 0.08, p_cross: 0.04, p_outer_kinds: 0.05, p_multi_dp: 0.04, p_nested_group: 0.03, p_shared_cte: 0.08, p_plain: 0.25, p_synthetic: 0.4, p_public_table: 0.5, p_outer: 0.2, ..base },
@@ -1055,6 +1057,63 @@ pub fn generate(seed: u64, run: u64, prop: &str) -> Generated {
             }
         }
     }
+    // WHERE conjuncts over functions and combinations of columns (own stream): the filter typing
+    // has a rule per function, and what it concludes about a column travels to keys and bounds
+    let mut rwn = Rng::stream(seed, run, "where_fn");
+    if rwn.chance(profile.p_where_fn) {
+        let rng_of = |c: &ColSpec| -> Option<(f64, f64, bool)> {
+            match &c.ty {
+                ColType::IntRange { lo, hi } => Some((*lo as f64, *hi as f64, true)),
+                ColType::FloatRange { lo, hi } => Some((*lo, *hi, false)),
+                ColType::IntValues(v) => Some((*v.iter().min().unwrap() as f64, *v.iter().max().unwrap() as f64, true)),
+                _ => None,
+            }
+        };
+        let lit = |x: f64, is_int: bool| if is_int { format!("{}", x.floor() as i64) } else { format!("{:?}", (x * 8.0).round() / 8.0 + 0.0625) };
+        let nums: Vec<&(String, ColSpec)> = numeric.iter().filter(|(q, c)| q != "r.factor" && rng_of(c).map_or(false, |r| r.0.abs().max(r.1.abs()) <= 1.0e6)).cloned().collect();
+        let texts: Vec<&(String, ColSpec)> = cols.iter().filter(|(q, c)| !is_id(q) && matches!(c.ty, ColType::TextValues(_))).collect();
+        let mut used = vec![];
+        for _ in 0..(1 + rwn.below(2)) {
+            let kind = rwn.below(10);
+            if kind >= 8 {
+                if texts.is_empty() { continue; }
+                let (qt, ct) = texts[rwn.usize(texts.len())];
+                let ColType::TextValues(vs) = &ct.ty else { continue };
+                let v = rwn.pick(vs).clone();
+                match rwn.below(4) {
+                    0 => { where_.push(format!("upper({}) = '{}'", qt, v.to_uppercase())); used.push("upper_eq"); }
+                    1 => { where_.push(format!("{} LIKE '{}%'", qt, v.chars().next().unwrap_or('x'))); used.push("like"); }
+                    2 => { let w = rwn.pick(vs).clone(); where_.push(format!("{} IN ('{}', '{}')", qt, v, w)); used.push("text_in"); }
+                    _ => { where_.push(format!("NOT ({} = '{}')", qt, v)); used.push("not_text_eq"); }
+                }
+                continue;
+            }
+            if nums.is_empty() { continue; }
+            let (q, c) = nums[rwn.usize(nums.len())];
+            let (lo, hi, is_int) = rng_of(c).unwrap();
+            let mid = (lo + hi) / 2.0;
+            let other = nums.iter().find(|(q2, _)| q2 != q);
+            match (kind, other) {
+                (0, _) => { where_.push(format!("abs({}) >= {}", q, lit((lo.abs().min(hi.abs()) + lo.abs().max(hi.abs())) / 2.0, is_int))); used.push("abs_ge"); }
+                (1, Some((q2, c2))) => { let r2 = rng_of(c2).unwrap(); where_.push(format!("{} + {} > {}", q, q2, lit(mid + (r2.0 + r2.1) / 2.0, is_int && r2.2))); used.push("sum_gt"); }
+                (2, _) => { where_.push(format!("{} * 2 < {}", q, lit(2.0 * mid + 1.0, is_int))); used.push("double_lt"); }
+                (3, Some((q2, c2))) => { let r2 = rng_of(c2).unwrap(); where_.push(format!("({} > {} OR {} < {})", q, lit(mid, is_int), q2, lit((r2.0 + r2.1) / 2.0, r2.2))); used.push("or"); }
+                (4, _) if c.optional => { where_.push(format!("({} IS NULL OR {} > {})", q, q, lit(mid, is_int))); used.push("null_or"); }
+                (4, Some((q2, c2))) => { let r2 = rng_of(c2).unwrap(); where_.push(format!("NOT ({} < {} AND {} > {})", q, lit(mid, is_int), q2, lit((r2.0 + r2.1) / 2.0, r2.2))); used.push("not_and"); }
+                (5, _) if c.optional => { where_.push(format!("coalesce({}, {}) >= {}", q, lit(lo, is_int), lit(mid, is_int))); used.push("coalesce_ge"); }
+                (5, _) => { where_.push(format!("-{} <= {}", q, lit(-mid, is_int))); used.push("neg_le"); }
+                (6, Some((q2, c2))) => { let r2 = rng_of(c2).unwrap(); where_.push(format!("{} - {} <= {}", q, q2, lit(mid - (r2.0 + r2.1) / 2.0, is_int && r2.2))); used.push("diff_le"); }
+                (7, _) => { where_.push(format!("CASE WHEN {} > {} THEN 1 ELSE 0 END = 1", q, lit(mid, is_int))); used.push("case_eq"); }
+                _ => {}
+            }
+        }
+        if !used.is_empty() {
+            used.sort();
+            used.dedup();
+            tags.push(format!("where_fn:{}", used.join("+")));
+        }
+    }
+
     // a comparison between two columns (own stream): filters narrow the types of both operands,
     // and a narrowed finite value set becomes the list of public groups
     let mut rcc = Rng::stream(seed, run, "where_col_cmp");
